@@ -150,7 +150,19 @@ TReplay ==
               (IF T.err \notin {"", "duplicate"} /\ ~T.expired THEN {"replay-rejected-for-another-reason"} ELSE {})
   /\ UNCHANGED <<st, R, lastBid, lastRoot>>
 
-TraceNext == TReset \/ TBlock \/ TBuild \/ TAdmit \/ TReplay
+(* C12, overflow: storage units in multiples of 2^60 (all per-key costs zero); a dimension overflows uint64 exactly
+   when its sum reaches 16 such units; Units must then fail, otherwise report the exact sums *)
+TUnitsRow ==
+  /\ Ev("unitsrow")
+  /\ LET tot == SumSeq(T.chunks)
+         exp == [d \in 1..3 |-> tot * T.cost[d]]
+         over == \E d \in 1..3 : exp[d] >= 16
+     IN diag' = (IF over /\ ~T.err THEN {"unit-overflow-not-rejected"} ELSE {}) \cup
+                (IF ~over /\ T.err THEN {"units-rejected-without-overflow"} ELSE {}) \cup
+                (IF ~over /\ ~T.err /\ \E d \in 1..3 : T.units[d] # exp[d] THEN {"units"} ELSE {})
+  /\ UNCHANGED <<st, R, lastBid, lastRoot>>
+
+TraceNext == TReset \/ TBlock \/ TBuild \/ TAdmit \/ TReplay \/ TUnitsRow
 TraceSpec == TraceInit /\ [][TraceNext]_tvars
 
 DiagEmpty == diag = {}
